@@ -77,7 +77,12 @@ struct World {
     /// (n2 build id, command line) of started, unreleased commands (a list: a step the
     /// code starts twice is in it twice)
     running: Vec<(usize, String)>,
+    /// n2 build id -> path of the response file its command was started with
+    rsp_paths: BTreeMap<usize, String>,
     finished: Vec<usize>,
+    /// overrides set by `plan` / `effs` operations
+    plan: Option<String>,
+    reads_override: BTreeMap<String, Vec<String>>,
     decisions: Vec<(usize, usize)>,
     prefix: Vec<usize>,
     wait_no: usize,
@@ -117,6 +122,21 @@ impl World {
     fn set_effs_for(&mut self, file: &str) {
         if let Some(g) = self.manif.get(file) {
             self.effs = step_effs(g);
+            for e in self.effs.iter_mut() {
+                if let Some(o) = e.outs.first() {
+                    if let Some(r) = self.reads_override.get(o) {
+                        if !e.depfile.is_empty() || e.msvc {
+                            e.reads = r.clone();
+                            e.creads = r.clone();
+                        }
+                    }
+                }
+                if e.kind == "gen" {
+                    if let Some(p) = &self.plan {
+                        e.gen = p.clone();
+                    }
+                }
+            }
         }
     }
 
@@ -268,6 +288,7 @@ impl verif::Hooks for H {
         let file = w.inv.file.clone();
         w.set_effs_for(&file);
         w.running.clear();
+        w.rsp_paths.clear();
         w.finished.clear();
         let n = w.work_no;
         let bs: Vec<Value> = builds.iter().map(build_json).collect();
@@ -304,7 +325,10 @@ impl verif::Hooks for H {
         let cmd = b.cmdline.clone().unwrap_or_default();
         w.running.push((b.id, cmd.clone()));
         let rsp = match &b.rspfile {
-            Some((p, c)) => json!([p, c]),
+            Some((p, c)) => {
+                w.rsp_paths.insert(b.id, p.clone());
+                json!([p, c])
+            }
             None => json!([]),
         };
         w.ev(json!({"e":"start","id":b.id+1,"cmd":cmd,"rsp":rsp,"pool":b.pool.unwrap_or_default()}));
@@ -391,10 +415,16 @@ impl verif::Hooks for H {
             Policy::First => cands[0],
         };
         let s = choice + 1;
+        let first_out = w
+            .effs
+            .get(s - 1)
+            .and_then(|e| e.outs.first().cloned())
+            .unwrap_or_default();
         let outcome = w
             .inv
             .outcomes
             .get(&s.to_string())
+            .or_else(|| w.inv.outcomes_by_out.get(&first_out))
             .cloned()
             .unwrap_or_else(|| "ok".to_string());
         let cmd = w
@@ -409,6 +439,13 @@ impl verif::Hooks for H {
             Some(p) if !p.as_os_str().is_empty() => p.is_dir(),
             _ => true,
         });
+        // what the command finds in its response file when it runs
+        let rspdisk = match w.rsp_paths.get(&choice) {
+            Some(p) => std::fs::read(p)
+                .map(|b| String::from_utf8_lossy(&b).into_owned())
+                .unwrap_or_else(|_| "<missing>".to_string()),
+            None => String::new(),
+        };
         let (writes, output, notes) = w.finish_effects(s, &outcome);
         let run: Vec<usize> = cands.iter().map(|k| k + 1).collect();
         let hasdeps = !eff.depfile.is_empty() || eff.msvc;
@@ -419,7 +456,7 @@ impl verif::Hooks for H {
         };
         w.ev(json!({"e":"finish","id":s,"out":outcome,"writes":writes,
             "reported":reported,"reads":reads,"hasdeps":hasdeps,"shown":eff.output,
-            "dirsok":dirs_ok,"notes":notes,"cands":run}));
+            "dirsok":dirs_ok,"rspdisk":rspdisk,"notes":notes,"cands":run}));
         if let Some(pos) = w.running.iter().position(|(id, _)| *id == choice) {
             w.running.remove(pos);
         }
@@ -683,6 +720,26 @@ impl Engine {
                 }
                 Op::Invoke(inv) => {
                     self.invoke(&world, inv);
+                }
+                Op::Plan { gen } => {
+                    world.borrow_mut().plan = Some(gen.clone());
+                }
+                Op::Effs { reads } => {
+                    let mut w = world.borrow_mut();
+                    for (k, v) in reads {
+                        w.reads_override.insert(k.clone(), v.clone());
+                    }
+                }
+                Op::Expect {
+                    ran,
+                    ok,
+                    deps,
+                    recorded,
+                    unknown,
+                } => {
+                    world.borrow_mut().ev(
+                        json!({"e":"expect","ran":ran,"ok":ok,"deps":deps,"recorded":recorded,"unknown":unknown}),
+                    );
                 }
             }
         }
